@@ -334,6 +334,13 @@ func (c *reusableConn) exchange(ctx context.Context, q *[]byte) (*[]byte, error)
 	case resp := <-respChan:
 		return resp, nil
 	case <-c.closeNotify:
+		// The reply may have been delivered right before the connection was closed.
+		// select picks a ready case at random, so look into respChan again.
+		select {
+		case resp := <-respChan:
+			return resp, nil
+		default:
+		}
 		return nil, c.closeErr
 	case <-ctx.Done():
 		return nil, context.Cause(ctx)
